@@ -26,7 +26,8 @@ STRAY_TEXTS = ["OK stolen:1:2", "OK", "NO you are not welcome", "MORE riddle me 
 
 def gen_stray(rnd, snap, cfg):
     """Pick a stray reply that must be ignored in the observed state."""
-    svcs = sorted(cfg["services"]) or ["login.example.org"]
+    svcs = sorted((snap or {}).get("services") or cfg["services"]) or ["login.example.org"]     # the table in force now
+    fresh = [s for s in svcs if s not in cfg["services"]]       # added by a reload during this history
     kinds = []
     if snap:
         if [c for c in snap["prev"] if c in snap["live"]]:
@@ -39,6 +40,8 @@ def gen_stray(rnd, snap, cfg):
             kinds += ["answered"] * 3
         if snap["tagged"] and len(svcs) > 1:
             kinds += ["never_queried"] * 2
+        if snap["tagged"] and fresh:
+            kinds += ["never_queried"] * 4      # a newly added service may sit in a recycled slot of the table
     if not kinds:
         return None
     k = rnd.choice(kinds)
@@ -72,12 +75,14 @@ def gen_stray(rnd, snap, cfg):
     elif k == "answered":
         op["cid"], op["svc"] = rnd.choice(snap["answered"])
     elif k == "never_queried":
-        op["cid"] = rnd.choice(snap["tagged"])
+        waiting = [c for c in snap.get("waiting", []) if c in snap["tagged"]]
+        op["cid"] = rnd.choice(waiting if waiting and rnd.random() < 0.7 else snap["tagged"])
         asked = set(s for (c, s) in snap["await"] + snap["answered"] if c == op["cid"])
         rest = [s for s in svcs if s not in asked]
         if not rest:
             return None
-        op["svc"] = rnd.choice(rest)
+        newer = [s for s in rest if s in fresh]
+        op["svc"] = rnd.choice(newer if newer and rnd.random() < 0.7 else rest)
     return op
 
 
